@@ -297,6 +297,55 @@ def neighbour_pairs(objs, rng, cap=24):
                 yield name, "neighbour:" + ".".join(str(p) for p in path if not isinstance(p, int)) + ":" + type(v).__name__, a, b
 
 
+_CHILD = r"""
+import pickle, sys
+sys.path[:0] = {path!r}
+from rv.props import c19
+from rv.gen import graphs
+objs = c19._objects(graphs.GraphGen({seed}, p_opt=0.7, p_share=0.5, size=2))
+for o in objs.values():
+    hash(o); {{o}}                      # the objects have been used as set members / dict keys before being stored
+pickle.dump(objs, open({out!r}, "wb"))
+"""
+
+
+def _objects(g):
+    from soundevent import data
+
+    clip = g.clip()
+    return {
+        "Term": g.term("species"), "Tag": g.tag(fresh=True), "Feature": data.Feature(term=g.term("snr"), value=2.5), "Note": g.note(),
+        "SoundEvent": g.sound_event(clip), "SoundEventAnnotation": g.se_annotation(clip), "SoundEventPrediction": g.se_prediction(clip),
+        "ClipPrediction": g.clip_prediction(clip),
+    }
+
+
+def cross_process_pairs(ctx, seed):
+    """Objects hashed and pickled by ANOTHER interpreter (its own string-hash seed), loaded here, against equal objects
+    built here: a dataset cache written by an earlier run, a multiprocessing worker's result."""
+    import os
+    import pickle
+    import subprocess
+    import sys
+    import tempfile
+
+    out = tempfile.mktemp(suffix=".pkl")
+    env = dict(os.environ, PYTHONHASHSEED="4321")
+    try:
+        r = subprocess.run([sys.executable, "-c", _CHILD.format(path=[p for p in sys.path if p], seed=seed, out=out)], env=env, capture_output=True, text=True, timeout=300)
+        if r.returncode != 0:
+            ctx.note("cross_process_child_failed")
+            return
+        loaded = pickle.load(open(out, "rb"))
+    finally:
+        if os.path.exists(out):
+            os.remove(out)
+    fresh = _objects(graphs.GraphGen(seed, p_opt=0.7, p_share=0.5, size=2))
+    for name in fresh:
+        ctx.mon("cross_process_pairs")
+        yield name, "unpickled_from_another_interpreter", loaded[name], fresh[name]
+
+
 def judge_hash(ctx, cls, how, a, b):
     spec = {"kind": "hash", "class": cls, "how": how}
     ctx.mon("hash_pairs")
@@ -370,6 +419,11 @@ def run(ctx):
             if enc.encode(probe) != 1 or _E.classification_encoding([probe], enc) != 1 or list(_E.multilabel_encoding([probe], enc)) != [0, 1]:
                 ctx.violate("encode_iff_equal", f"encode_iff_equal:equal_tag_built_differently:{variant}", observed=enc.encode(probe), expected=1, spec={"kind": "encode_equal_tag", "variant": variant})
 
+    if ctx.shard == 0:
+        for cseed in (7, 8):
+            for cls, how, a, b in cross_process_pairs(ctx, cseed):
+                ctx.case(("hash", cls, how), {"kind": "hash", "class": cls, "how": how, "seed": cseed})
+                judge_hash(ctx, cls, how, a, b)
     # hash pairs
     for i in range(ctx.scale(25, 150)):
         seed = rng.getrandbits(32)
